@@ -187,3 +187,29 @@ def run(ctx):
                     okid = okid or direct
             ctx.check(bool(vlocals) and okid, "IDENTITY", "C19:IDENTITY:%s" % outer, "%s initialises its result from %s()'s value without arithmetic" % (outer, inner),
                       "%s no longer passes a lone operand through unchanged (definitions of the result: %s): `-0.0` evaluates to `+0.0` with the option on, and 1/(-0.0) to +inf" % (outer, defs), config, ctx.where(g))
+        # ---- PAIR (mode): the sexagesimal interpretation switched for a unit call's argument is the caller's again afterwards:
+        # every write of `self.sexagesimal_is_time` that follows the nested expression restores a value saved from the field
+        # before it (a constant would be right only for non-nested calls).
+        pi = fx.fn(P + "parse_ident_or_special")
+        ctx.saw(pi)
+        nested = [b for b, t in pi.calls() if fx.callee(t) == P + "expr"]
+        writes = []
+        for b, i, s_ in pi.stmts():
+            if s_["k"] == "assign" and s_["p"]["pr"] and render(pi.sym_place(s_["p"])) == "self.sexagesimal_is_time":
+                writes.append((b, i, s_))
+        after = [(b, i, s_) for b, i, s_ in writes if any(b in pi.reachable([pi.blocks[nb]["term"]["t"]]) for nb in nested if pi.blocks[nb]["term"].get("t") is not None)]
+        ctx.floor("PAIR.mode-writes", len(writes), 2, config)
+        okm = bool(after)
+        for b, i, s_ in after:
+            v = pi.sym_rvalue(s_["rv"])
+            saved = v[0] == "local" and len(v) > 2 and v[2]
+            if saved:
+                # the named local was filled from the field before the nested call
+                src_ok = False
+                for b2, i2, s2 in pi.stmts():
+                    if s2["k"] == "assign" and not s2["p"]["pr"] and s2["p"]["l"] == v[1] and render(pi.sym_rvalue(s2["rv"])) == "self.sexagesimal_is_time" and all(pi.dominates(b2, nb) for nb in nested):
+                        src_ok = True
+                saved = src_ok
+            okm = okm and bool(saved)
+        ctx.check(okm, "PAIR", "C19:PAIR:sexagesimal-mode-restored", "after a unit call's argument the sexagesimal mode is restored from the value saved before it",
+                  "parse_ident_or_special sets self.sexagesimal_is_time to a constant after the nested expression instead of restoring the saved mode: in nested unit calls a sexagesimal literal after the inner call is read as time (`deg(rad(0) + 1:30)`)", config, ctx.where(pi))
